@@ -54,9 +54,9 @@ def cterm(t):
     raise C.CheckBroken("unknown term kind %r" % (k,))
 
 
-def cparams(p):
-    return ("{| a_lesc := %s; a_oob := %s; a_mitm := %s; a_bond := %s; a_iocap := %d; a_mks := %d; a_kd := %d |}"
-            % (cbool(p["lesc"]), cbool(p["oob"]), cbool(p["mitm"]), cbool(p["bonding"]), p["iocap"], p["mks"], p["kd"]))
+def cparams(p, handle=0):
+    return ("{| a_lesc := %s; a_oob := %s; a_mitm := %s; a_bond := %s; a_iocap := %d; a_mks := %d; a_kd := %d; a_handle := %d |}"
+            % (cbool(p["lesc"]), cbool(p["oob"]), cbool(p["mitm"]), cbool(p["bonding"]), p["iocap"], p["mks"], p["kd"], handle))
 
 
 def cscript(u):
@@ -99,7 +99,8 @@ def ccase(case, res):
     preq = bytes.fromhex(res["preq"] or "")
     pres = bytes.fromhex(res["pres"] or "")
     return "(%s, %s, %s, %s, ([%s], [%s], %s), %s, %s)" % (
-        cparams(case["i"]), cparams(case["r"]), cscript(case["ui"]), cenv(case, res),
+        cparams(case["i"], res.get("handles", [0, 0])[0]), cparams(case["r"], res.get("handles", [0, 0])[1]),
+        cscript(case["ui"]), cenv(case, res),
         ";".join("%d" % b for b in preq), ";".join("%d" % b for b in pres), cbool(not res["timeout"]),
         cobs(res["sides"][0]), cobs(res["sides"][1]))
 
